@@ -83,15 +83,21 @@ def c03_sweep(ctx, n):
             else:
                 a_, ax_ = nps.uniform(0.2, 1.2), np.eye(3)[rng.randrange(3)]
                 sori = R.from_rotvec([ax_ * a_ * (-1) ** j for j in range(ms)])
-            sens = magpy.Sensor(position=far_points(nps, ms, lo=4, hi=9), orientation=sori, pixel=nps.uniform(-0.3, 0.3, (2, 3)))
-            r0 = getf(src, sens, squeeze=False)
+            # the reading is taken in the sensor's own frame: component-wise NON-LINEAR pixel reductions (max, min, median, std) and
+            # a left-handed sensor are part of the reading and must not see the global axes either
+            agg = rng.choice([None, None, "max", "min", "median", "std", "mean"])
+            hand = rng.choice(["right", "right", "left"])
+            sens = magpy.Sensor(position=far_points(nps, ms, lo=4, hi=9), orientation=sori, pixel=nps.uniform(-0.3, 0.3, (rng.choice([2, 3, 4]), 3)), handedness=hand)
+            r0 = getf(src, sens, squeeze=False, pixel_agg=agg)
             sens2 = sens.copy()
             sens2.rotate(Q, anchor=0).move(t)
-            r1 = getf(moved, sens2, squeeze=False)
+            r1 = getf(moved, sens2, squeeze=False, pixel_agg=agg)
             per["sensor:" + skind] = per.get("sensor:" + skind, 0) + 1
+            per[f"sensor:agg={agg}"] = per.get(f"sensor:agg={agg}", 0) + 1
+            per["sensor:hand=" + hand] = per.get("sensor:hand=" + hand, 0) + 1
             if r0.shape != r1.shape or not _close(r1, r0, float(np.max(np.abs(r0))) + 1e-300, 1e-7):
                 fails.append({"key": f"covariance:sensor:{skind}", "desc": f"get{field} seen by a Sensor changes when source and sensor are moved by one rigid motion (sensor orientation path: {skind})",
-                              "replay": {"class": cls, "field": field, "sensor_quats": sori.as_quat().tolist(), "quat": Q.as_quat().tolist(), "t": t.tolist()}})
+                              "replay": {"class": cls, "field": field, "sensor_quats": sori.as_quat().tolist(), "quat": Q.as_quat().tolist(), "t": t.tolist(), "pixel_agg": agg, "handedness": hand}})
     # nested compounds moved as a whole through the collection API (rotate about own centre / anchor, then move)
     for i in range(max(6, n // 6)):
         nps = np.random.default_rng(rng.randrange(2**31))
@@ -234,6 +240,12 @@ def c04_sweep(ctx, n):
             sens.pixel[tuple(0 for _ in range(sens.pixel.ndim - 1))] = nps.uniform(-0.4, 0.4, 3)
             pixel = np.array(sens.pixel)
             kinds["pixel-edited-in-place:" + how] = kinds.get("pixel-edited-in-place:" + how, 0) + 1
+        if rng.random() < 0.4:
+            # the source has a LONGER path than the sensor (whose own path may have more than one entry): the sensor's path is
+            # padded with its last pose — it stays where its path ended
+            L = len(sens._position) + rng.choice([1, 2, 4])
+            src.position = np.cumsum(nps.uniform(-0.2, 0.2, (L, 3)), axis=0)
+            kinds[f"source-path-longer:sensor-path={len(sens._position)}"] = kinds.get(f"source-path-longer:sensor-path={len(sens._position)}", 0) + 1
         B = magpy.getB(src, sens, squeeze=False)  # (1, M, 1, pix..., 3)
         M = B.shape[1]
         px = np.zeros((1, 3)) if pixel is None else pixel.reshape(-1, 3)
@@ -243,7 +255,8 @@ def c04_sweep(ctx, n):
             r = sens._orientation[min(mi, len(sens._orientation) - 1)]
             p = sens._position[min(mi, len(sens._position) - 1)]
             glob = r.apply(px) + p
-            bg = magpy.getB(src, glob, squeeze=False).reshape(-1, 3)
+            bgf = magpy.getB(src, glob, squeeze=False)
+            bg = bgf[0, min(mi, bgf.shape[1] - 1), 0].reshape(-1, 3)
             exp = r.inv().apply(bg)
             if left:
                 exp[:, 0] *= -1
